@@ -10,9 +10,11 @@ package sched
 
 import (
 	"fmt"
+	"os"
 	"runtime"
 	"runtime/debug"
 	"strings"
+	"sync/atomic"
 	"time"
 )
 
@@ -263,6 +265,7 @@ func Point(kind string, obj int64) {
 	e.unwindIfPoisoned()
 	t := e.cur
 	e.steps++
+	atomic.AddInt64(&progress, 1)
 	if e.steps > e.horizon {
 		e.finish("horizon")
 	}
@@ -346,6 +349,7 @@ func (t *thread) novel(obj int64) bool {
 //go:norace
 func (e *exec) yield(t *thread, exiting bool) {
 	for {
+		atomic.AddInt64(&progress, 1)
 		others := e.enabledOthers(t)
 		if len(others) == 0 && e.settled < e.settleMs && !(!exiting && e.enabled(t)) {
 			e.settled++
@@ -595,6 +599,54 @@ func trimStack(s string) string {
 	return strings.Join(keep, "\n")
 }
 
+// progress counts scheduling activity (points, blocking, hand-offs) of the whole process; the
+// watchdog reads it. CurrentScenario is set by the explorer for the watchdog's report.
+var (
+	progress        int64
+	CurrentScenario string
+)
+
+// watchdog: a thread that holds the token and neither reaches a scheduling point nor ends (an
+// endless loop without a system call or an atomic operation in it, or a real blocking call the
+// shims do not own) cannot be pre-empted or unwound. After MC_STUCK_S seconds (default 90) without
+// any scheduling activity the process reports the scenario and the decisions taken so far on
+// stdout and exits with status 3; the orchestrator re-runs the scenario to tell a reproducible
+// hang (a violation: "the execution never ends") from a machine hiccup.
+func watchdog(e *exec, stop chan struct{}) {
+	limit := EnvInt("MC_STUCK_S", 90)
+	last, idle := int64(-1), 0
+	for {
+		select {
+		case <-stop:
+			return
+		case <-time.After(time.Second):
+		}
+		cur := atomic.LoadInt64(&progress)
+		if cur != last {
+			last, idle = cur, 0
+			continue
+		}
+		idle++
+		if idle < limit {
+			continue
+		}
+		var nz []string
+		for i, d := range e.decisions {
+			if d.Chosen != 0 {
+				nz = append(nz, fmt.Sprintf("%d:%d/%d", i, d.Chosen, d.N))
+			}
+		}
+		name := "?"
+		if e.cur != nil {
+			name = e.cur.name
+		}
+		buf := make([]byte, 1<<16)
+		buf = buf[:runtime.Stack(buf, true)]
+		fmt.Printf("\nMC-STUCK scenario=%q thread=%s steps=%d decisions=%d nondefault=[%s]\n%s\nMC-STUCK-END\n", CurrentScenario, name, e.steps, len(e.decisions), strings.Join(nz, " "), trimStack(string(buf)))
+		os.Exit(3)
+	}
+}
+
 // RunOnce executes body as thread 0 under the scheduler, replaying prefix and taking choice 0 at
 // every later decision. It returns when every thread has finished or been unwound.
 //
@@ -611,6 +663,9 @@ func RunOnce(prefix []PrefixItem, horizon int, keepTrace bool, body func()) *Out
 	e.threads = []*thread{t0}
 	e.cur = t0
 	ex = e
+	stopWatch := make(chan struct{})
+	go watchdog(e, stopWatch)
+	defer close(stopWatch)
 	go e.threadMain(t0, body)
 	t0.g.wake()
 	<-e.endCh
